@@ -29,7 +29,7 @@
    assignment self.documented_awaiting_function_def = test_doc is the position of the appended
    entry (the model's AwTop idx). *)
 From Coq Require Import String List NArith ZArith Bool Arith Lia.
-From CMinx Require Import Base.Str Base.PySem Model.Writer Model.DocTypes Model.Lexer Model.Parser Model.Aggregator Gen.PySource.
+From CMinx Require Import Base.Str Base.PySem Model.Writer Model.DocTypes Model.Lexer Model.Parser Model.Aggregator Model.Naming Model.Pipeline Gen.PySource.
 Import ListNotations.
 
 (* ---- spec ---- *)
@@ -49,6 +49,10 @@ Definition result_docs (r : result agg) : option (list entry) :=
 (* Python's name_index (an int, -1 = no NAME keyword seen) for the model's option nat *)
 Definition name_index_of (i : option nat) : Z :=
   match i with None => (-1)%Z | Some k => Z.of_nat k end.
+(* module doccomments only occur first in the documented list (what the aggregator produces:
+   enterDocumented_module is the first listener event of a file) *)
+Definition modules_only_first (docs : list entry) : bool :=
+  forallb (fun e => negb (py_is_module_entry e)) (tl docs).
 (* the document w with the element e appended to the top-level writer *)
 Definition w_add (w : wstate) (e : elem) : wstate :=
   {| w_title := w_title w; w_body := w_body w ++ [e] |}.
@@ -1068,6 +1072,108 @@ Theorem process_ct_add_section_matches_source :
     = PySource.DocumentationAggregator_process_ct_add_section c doc (documented st) (awaiting st).
 Proof. unfold PySource.DocumentationAggregator_process_ct_add_section. ct_process_proof. Qed.
 
+(* ------------------------------------------------------------------ *)
+(* E. enterDocumented_module, Documenter.process_docs, the names of document_single_file *)
+
+(* DocumentationAggregator.enterDocumented_module(ctx); the Documented_moduleContext is the text
+   of its Module_docstring token *)
+Theorem module_entry_matches_source :
+  forall text docs,
+    docs ++ [module_entry text]
+    = PySource.DocumentationAggregator_enterDocumented_module text docs.
+Proof.
+  intros text docs. unfold PySource.DocumentationAggregator_enterDocumented_module, module_entry.
+  cbv zeta. unfold clean_doc_text. rewrite <- clean_doc_lines_matches_total.
+  unfold py_append. f_equal. f_equal.
+  change (py_split text [10%N]) with (split_on nl text).
+  change (py_split (clean_doc_lines (split_on nl text)) [10%N])
+    with (split_on nl (clean_doc_lines (split_on nl text))).
+  destruct (split_on nl (clean_doc_lines (split_on nl text))) as [|l r]; reflexivity.
+Qed.
+
+(* ---- Documenter.process_docs: the decision part ---- *)
+
+Lemma refs_where_none : forall (p : entry -> bool) xs a,
+  forallb (fun e => negb (p e)) xs = true ->
+  map fst (filter (fun ie => p (snd ie)) (combine (seq a (length xs)) xs)) = [].
+Proof.
+  intros p xs. induction xs as [|x r IH]; intros a H.
+  - reflexivity.
+  - cbn [forallb] in H. apply andb_prop in H. destruct H as [Hx Hr].
+    cbn [length seq combine filter snd]. apply negb_true_iff in Hx. rewrite Hx. apply IH. exact Hr.
+Qed.
+
+(* Documenter.process_docs(docs) up to (not including) its final loop
+       for doc in docs: doc.process(self.writer)
+   computes the entries that get rendered and the writer's title: Pipeline.finalize.
+   Fields: module_name, and the title of self.writer.  The hypothesis is the shape of every list
+   the aggregator produces; without it the Python code also renames module entries further down
+   the list, which finalize does not model. *)
+Theorem process_docs_matches_source :
+  forall title module_name docs,
+    modules_only_first docs = true ->
+    PySource.Documenter_process_docs docs module_name title
+    = (snd (finalize title module_name docs), fst (finalize title module_name docs)).
+Proof.
+  intros title module_name docs Hm. unfold PySource.Documenter_process_docs, py_refs_where.
+  unfold modules_only_first in Hm.
+  destruct docs as [|e rest].
+  - reflexivity.
+  - cbn [tl] in Hm. pose proof (refs_where_none py_is_module_entry rest 1 Hm) as Hnone.
+    destruct e; cbn [length seq combine filter snd py_is_module_entry map fst];
+      rewrite Hnone; try reflexivity.
+    (* the list starts with a module entry *)
+    cbv zeta. destruct name as [|c n]; reflexivity.
+Qed.
+
+Example process_docs_matches_source_nonvacuous :
+  modules_only_first [EModule (s"m") (s"doc"); EGeneric (s"f") [] []] = true
+  /\ PySource.Documenter_process_docs [EModule (s"m") (s"doc"); EGeneric (s"f") [] []] (s"file") (s"t")
+     = ([EModule (s"m") (s"doc"); EGeneric (s"f") [] []], s"m")
+  /\ PySource.Documenter_process_docs [EGeneric (s"f") [] []] (s"file") (s"t")
+     = ([EModule (s"file") []; EGeneric (s"f") [] []], s"t").
+Proof. repeat split; vm_compute; reflexivity. Qed.
+
+(* the hypothesis cannot be dropped: a second module entry further down changes the title in
+   Python (and in the translation) but not in finalize *)
+Example process_docs_needs_modules_first :
+  PySource.Documenter_process_docs [EModule (s"a") []; EModule (s"b") []] (s"file") (s"t")
+  <> (snd (finalize (s"t") (s"file") [EModule (s"a") []; EModule (s"b") []]),
+      fst (finalize (s"t") (s"file") [EModule (s"a") []; EModule (s"b") []])).
+Proof. vm_compute. discriminate. Qed.
+
+(* ---- document_single_file: title and module name ---- *)
+
+(* the part of document_single_file from  prefix = settings.rst.prefix  to the last assignment of
+   module_name, as a function of the settings it reads and of the three library calls
+   os.path.isdir(root), os.path.relpath(file, root), os.path.basename(file) *)
+Theorem single_file_names_match_source :
+  forall prefix sep isdir relpath basename ext_titles ext_modules,
+    PySource.document_single_file_names prefix sep isdir relpath basename ext_titles ext_modules
+    = header_and_module prefix sep ext_titles ext_modules (if isdir then relpath else basename).
+Proof.
+  intros prefix sep isdir relpath basename et em.
+  unfold PySource.document_single_file_names, header_and_module, prefixed, py_re_sub_cmake_ext, py_str_eq.
+  cbv zeta.
+  destruct isdir; destruct prefix as [p|]; destruct et; destruct em; cbn [negb];
+    try reflexivity;
+    match goal with
+    | |- context [str_eqb ?a ?b] => destruct (str_eqb a b); rewrite <- ?app_assoc; reflexivity
+    end.
+Qed.
+
+Corollary single_file_names_in_tree :
+  forall prefix sep relpath basename ext_titles ext_modules,
+    PySource.document_single_file_names prefix sep true relpath basename ext_titles ext_modules
+    = header_and_module prefix sep ext_titles ext_modules relpath.
+Proof. intros. apply single_file_names_match_source. Qed.
+
+Corollary single_file_names_outside_tree :
+  forall prefix sep relpath basename ext_titles ext_modules,
+    PySource.document_single_file_names prefix sep false relpath basename ext_titles ext_modules
+    = header_and_module prefix sep ext_titles ext_modules basename.
+Proof. intros. apply single_file_names_match_source. Qed.
+
 (* ==== MAIN THEOREMS ====
    A. rstwriter.py
      get_indents_matches_source        interpreted_text_matches_source
@@ -1092,7 +1198,11 @@ Proof. unfold PySource.DocumentationAggregator_process_ct_add_section. ct_proces
      argument_text_matches_source      process_generic_matches_source
      process_set_matches_source        process_set_never_crashes
      process_option_matches_source     process_add_test_matches_source
-     process_ct_add_test_matches_source  process_ct_add_section_matches_source *)
+     process_ct_add_test_matches_source  process_ct_add_section_matches_source
+   E. enterDocumented_module, Documenter.process_docs, document_single_file
+     module_entry_matches_source       process_docs_matches_source
+     single_file_names_match_source    single_file_names_in_tree
+     single_file_names_outside_tree *)
 Print Assumptions get_indents_matches_source.
 Print Assumptions interpreted_text_matches_source.
 Print Assumptions para_text_matches_source.
@@ -1130,3 +1240,8 @@ Print Assumptions process_option_matches_source.
 Print Assumptions process_add_test_matches_source.
 Print Assumptions process_ct_add_test_matches_source.
 Print Assumptions process_ct_add_section_matches_source.
+Print Assumptions module_entry_matches_source.
+Print Assumptions process_docs_matches_source.
+Print Assumptions single_file_names_match_source.
+Print Assumptions single_file_names_in_tree.
+Print Assumptions single_file_names_outside_tree.
